@@ -406,8 +406,19 @@ func c11EvalLib(cs c11Case) (out c10Out) {
 	}()
 	var m vegeta.Metrics
 	rs := c11Results(arrival)
+	// a third of the data sets is reported the way `report -every` does it: the metrics are also
+	// closed before the first result and at two places in between; what is reported at the end
+	// must not depend on that
+	periodic := len(arrival)%3 == 1
+	if periodic {
+		m.Close()
+		out.count("data_sets_closed_before_and_between_additions", 1)
+	}
 	for i := range rs {
 		m.Add(&rs[i])
+		if periodic && (i == len(rs)/3 || i == len(rs)-2) {
+			m.Close()
+		}
 	}
 	m.Close()
 	out.count("latencies_added", int64(len(arrival)))
